@@ -177,6 +177,99 @@ theorem specific_trailers_faithful (b : Bytes) (t : Trailer) (h : Trailer.parse 
     simp only [List.length_drop, le_drop, Nat.reduceAdd] at h4 hl
     simp [StreamLayout.chunkTrailerLayoutId, u32At_eq b 28 (by omega), hl]
 
+/-- Converse for the specific leaders: a packet whose generic leader parses and whose image
+leader part is complete in the layout decoder, with a pixel-format code the table knows, is
+decoded (to exactly those fields); an unknown code is `InvalidPacket`. -/
+theorem image_leader_complete (b : Bytes) (l : Leader) (s : StreamLayout.ImageLeader)
+    (h : Leader.parse b = .ok l) (hs : StreamLayout.imageLeader b = some s) :
+    (∀ f, decode s.pixelFormatCode = some f →
+      ImageLeader.fromBytes l.raw =
+        .ok ⟨s.timestamp, f, s.width, s.height, s.xOffset, s.yOffset, s.xPadding⟩ ∧
+      ImageExtendedChunkLeader.fromBytes l.raw =
+        .ok ⟨s.timestamp, f, s.width, s.height, s.xOffset, s.yOffset, s.xPadding⟩) ∧
+    (decode s.pixelFormatCode = none →
+      ImageLeader.fromBytes l.raw = .err .invalidPacket ∧
+      ImageExtendedChunkLeader.fromBytes l.raw = .err .invalidPacket) := by
+  have h52 := imageLeader_length b s hs
+  obtain ⟨_, _, _, _, _, hr⟩ := Leader.parse_ok h
+  simp only [StreamLayout.imageLeader, u64At_eq b 20 (by omega), u32At_eq b 28 (by omega),
+    u32At_eq b 32 (by omega), u32At_eq b 36 (by omega), u32At_eq b 40 (by omega),
+    u32At_eq b 44 (by omega), u16At_eq b 48 (by omega), u16At_eq b 50 (by omega),
+    Option.bind_eq_bind, Option.bind_some, Option.pure_def, Option.some.injEq] at hs
+  subst hs
+  rw [ImageExtendedChunkLeader.fromBytes_eq, hr, ImageLeader.fromBytes_eq]
+  simp only [List.length_drop, le_drop, Nat.reduceAdd]
+  rw [if_neg (by omega)]
+  refine ⟨?_, ?_⟩
+  · intro f hf
+    rw [pixelFormatTryFrom_ok.mpr hf]
+    dsimp only
+    rw [if_neg (by omega)]
+    exact ⟨rfl, rfl⟩
+  · intro hn
+    have : pixelFormatTryFrom (le b 28 4) = .err .invalidPacket := by
+      unfold pixelFormatTryFrom; rw [hn]
+    rw [this]
+    exact ⟨rfl, rfl⟩
+
+/-- Converse for the chunk leader and the three specific trailers. -/
+theorem chunk_leader_and_trailers_complete (b : Bytes) :
+    (∀ l ts, Leader.parse b = .ok l → StreamLayout.chunkLeaderTimestamp b = some ts →
+      ChunkLeader.fromBytes l.raw = .ok ⟨ts⟩) ∧
+    (∀ t h, Trailer.parse b = .ok t → StreamLayout.imageTrailerHeight b = some h →
+      ImageTrailer.fromBytes t.raw = .ok ⟨h⟩) ∧
+    (∀ t h c, Trailer.parse b = .ok t → StreamLayout.extTrailer b = some (h, c) →
+      ImageExtendedChunkTrailer.fromBytes t.raw = .ok ⟨h, c⟩) ∧
+    (∀ t c, Trailer.parse b = .ok t → StreamLayout.chunkTrailerLayoutId b = some c →
+      ChunkTrailer.fromBytes t.raw = .ok ⟨c⟩) := by
+  refine ⟨?_, ?_, ?_, ?_⟩
+  · intro l ts hl hs
+    obtain ⟨_, _, _, _, _, hr⟩ := Leader.parse_ok hl
+    have h28 : 28 ≤ b.length := by
+      by_cases h : 28 ≤ b.length
+      · exact h
+      · simp [StreamLayout.chunkLeaderTimestamp, u64At_none b 20 (by omega)] at hs
+    simp only [StreamLayout.chunkLeaderTimestamp, u64At_eq b 20 (by omega), Option.some.injEq] at hs
+    subst hs
+    rw [hr, ChunkLeader.fromBytes_eq]
+    simp only [List.length_drop, le_drop, Nat.reduceAdd]
+    rw [if_neg (by omega)]
+  · intro t h ht hs
+    obtain ⟨_, _, _, _, _, _, hr⟩ := Trailer.parse_ok ht
+    have h32 : 32 ≤ b.length := by
+      by_cases h : 32 ≤ b.length
+      · exact h
+      · simp [StreamLayout.imageTrailerHeight, u32At_none b 28 (by omega)] at hs
+    simp only [StreamLayout.imageTrailerHeight, u32At_eq b 28 (by omega), Option.some.injEq] at hs
+    subst hs
+    rw [hr, ImageTrailer.fromBytes_eq]
+    simp only [List.length_drop, le_drop, Nat.reduceAdd]
+    rw [if_neg (by omega)]
+  · intro t h c ht hs
+    obtain ⟨_, _, _, _, _, _, hr⟩ := Trailer.parse_ok ht
+    have h36 : 36 ≤ b.length := by
+      by_cases h : 36 ≤ b.length
+      · exact h
+      · simp [StreamLayout.extTrailer, u32At_none b 32 (by omega)] at hs
+    simp only [StreamLayout.extTrailer, u32At_eq b 28 (by omega), u32At_eq b 32 (by omega),
+      Option.bind_eq_bind, Option.bind_some, Option.pure_def, Option.some.injEq, Prod.mk.injEq] at hs
+    obtain ⟨h1, h2⟩ := hs
+    subst h1 h2
+    rw [hr, ImageExtendedChunkTrailer.fromBytes_eq]
+    simp only [List.length_drop, le_drop, Nat.reduceAdd]
+    rw [if_neg (by omega)]
+  · intro t c ht hs
+    obtain ⟨_, _, _, _, _, _, hr⟩ := Trailer.parse_ok ht
+    have h32 : 32 ≤ b.length := by
+      by_cases h : 32 ≤ b.length
+      · exact h
+      · simp [StreamLayout.chunkTrailerLayoutId, u32At_none b 28 (by omega)] at hs
+    simp only [StreamLayout.chunkTrailerLayoutId, u32At_eq b 28 (by omega), Option.some.injEq] at hs
+    subst hs
+    rw [hr, ChunkTrailer.fromBytes_eq]
+    simp only [List.length_drop, le_drop, Nat.reduceAdd]
+    rw [if_neg (by omega)]
+
 /-- Every decoded field fits the Rust type that holds it (the `Nat` carriers of the model
 never leave the machine range, so `as usize` casts in the builder are identities). -/
 theorem parse_field_widths (b : Bytes) :
@@ -425,6 +518,42 @@ theorem walk_exact (p : Profile) (buf : Bytes) (valid s : Nat) (hlen : valid ≤
     have := chunkWalk_complete p buf ns valid (valid + 1) s hch hlast hlen h64 (by omega)
     rw [this] at hr
     exact (Option.some.inj hr).symm
+
+/-- **build_accepts**: conversely, whenever the trailer reports success, the declared valid size
+does not exceed the received count and the specific parts decode (and, for image extended
+chunk, the valid bytes form a non-empty well-formed chunk sequence), `build` succeeds with
+exactly these fields — so `build` fails only for the reasons listed in `build_bounds`. -/
+theorem build_accepts (p : Profile) (l : Leader) (t : Trailer) (buf : Bytes) (recv : Nat)
+    (hs : t.payloadStatus = .success) (hv : t.validPayloadSize ≤ recv) :
+    (∀ il it, l.payloadType = .image → ImageLeader.fromBytes l.raw = .ok il →
+      ImageTrailer.fromBytes t.raw = .ok it →
+      build p l t buf recv = .ok ⟨l.blockId, .image,
+        some ⟨il.width, it.actualHeight, il.xOffset, il.yOffset, il.pixelFormat, t.validPayloadSize⟩,
+        buf, t.validPayloadSize, il.timestamp⟩) ∧
+    (∀ il it ns s, l.payloadType = .imageExtendedChunk →
+      ImageExtendedChunkLeader.fromBytes l.raw = .ok il →
+      ImageExtendedChunkTrailer.fromBytes t.raw = .ok it →
+      recv ≤ buf.length → t.validPayloadSize < 2 ^ 64 →
+      StreamLayout.ChunksBack buf t.validPayloadSize ns → ns.getLast? = some s →
+      build p l t buf recv = .ok ⟨l.blockId, .imageExtendedChunk,
+        some ⟨il.width, it.actualHeight, il.xOffset, il.yOffset, il.pixelFormat, s⟩,
+        buf, t.validPayloadSize, il.timestamp⟩) ∧
+    (∀ cl ct, l.payloadType = .chunk → ChunkLeader.fromBytes l.raw = .ok cl →
+      ChunkTrailer.fromBytes t.raw = .ok ct →
+      build p l t buf recv = .ok ⟨l.blockId, .chunk, none, buf, t.validPayloadSize, cl.timestamp⟩) := by
+  have h1 : ¬ t.payloadStatus ≠ .success := by simp [hs]
+  have h2 : ¬ t.validPayloadSize > recv := by omega
+  refine ⟨?_, ?_, ?_⟩
+  · intro il it hty hil hit
+    simp only [build, if_neg h1, if_neg h2, hty, buildImage, mapErr_ok' hil, mapErr_ok' hit,
+      Res.bind_ok, Res.pure_eq]
+  · intro il it ns s hty hil hit hrecv hwf hch hlast
+    have hw := (walk_exact p buf t.validPayloadSize s (by omega) hwf).mpr ⟨ns, hch, hlast⟩
+    simp only [build, if_neg h1, if_neg h2, hty, buildImageExtended, mapErr_ok' hil, mapErr_ok' hit,
+      hw, Res.bind_ok, Res.pure_eq]
+  · intro cl ct hty hcl hct
+    simp only [build, if_neg h1, if_neg h2, hty, buildChunk, mapErr_ok' hcl, mapErr_ok' hct,
+      Res.bind_ok, Res.pure_eq]
 
 /-! ### Byte level: the hook `verif_build_payload` = parse both packets, then build -/
 
